@@ -7,10 +7,23 @@
        first releases every byte it was holding back (C04_html_error_releases), then is the identity (C04_html_in_error);
      - insert-only text filters: output = prepended values ++ input ++ appended values, for every chunking incl. empty
        chunks and no chunk at all (C04_text_insert_only).
-   PARTIAL: for the HTML append / prepend / replace stages the content clause (output = input plus insertions /
-   minus whole element spans) is decided by the correspondence run on damaged documents, not by a theorem. *)
+     - the content clause for the HTML stage (append_child / prepend_child / replace, with or without css selector,
+       whatever the selector engine answers), for EVERY state reachable from the initial state, EVERY chunk (any bytes:
+       malformed, truncated, not UTF-8), whether or not the call takes the error path, and for every chunking of a
+       whole run including the end-of-stream call: insert-only visitors: the output is the input with only insertions
+       of the whole value ([ins_of]: C04_html_insert_only_call, C04_html_insert_only); replace: the output is the
+       input where disjoint '<' ... '>' segments were each replaced by the value ([repl_of]: C04_html_replace_call,
+       C04_html_replace); [reach F] is the invariant of the stage, true of hfb_new and preserved by hfb_filter
+       (C04_html_reach_init, C04_html_reach_step); at end of stream exactly what is held is released (C04_html_end);
+     - whole filter lists, text and HTML filters in any order, through FilterBodyAction's chain: one pass per filter
+       in list order, each constrained as above (C04_filter_list, C04_filter_rel_def).
+   A replaced span is a '<' ... '>' segment (from the tag that enters the last element of the path to the FIRST end tag of
+   that name): it is NOT always a balanced element (C04_replace_span_not_balanced: nested same-name elements), which is
+   what the property's quantifier states ("a set of '<...>'-delimited spans").
+   Proofs: RIO.HtmlConserve, RIO.HtmlConserveChain (with RIO.HtmlEdit, RIO.HtmlTagShape). *)
 Require Import RIO.Base RIO.TokMonad RIO.HtmlTok RIO.BodyText RIO.HtmlFilter RIO.ChainProofs RIO.BodyProofs RIO.CodecChain RIO.BodyPass.
 Require Import RIO.TokLogic RIO.HtmlTokProofs RIO.TokShift RIO.HtmlSplit.
+Require Import RIO.HtmlEdit RIO.HtmlTagShape RIO.HtmlConserve RIO.HtmlConserveChain RIO.HtmlConserveEx.
 Close Scope N_scope.
 
 Theorem C04_nothing_applies : forall lower sel ctok fs chunks,
@@ -55,7 +68,7 @@ Proof.
 Qed.
 
 
-(* PARTIAL (proof: RIO.HtmlSplit): an HTML stage whose visitor does not fire in a chunk — no tag token of the
+(* superseded by the C04_html_* theorems below, kept (proof: RIO.HtmlSplit): an HTML stage whose visitor does not fire in a chunk — no tag token of the
    chunk (held-back bytes included) names the element the visitor waits to enter or to leave — only moves bytes:
    what it returns followed by what it still holds is what it held followed by the chunk, for every state of the
    stage, every chunk (any bytes) and whether or not the call fails.  [tok_facts]: the totality facts about the
@@ -67,9 +80,86 @@ Theorem C04_html_conservation_partial : forall lower sel, lower_ok lower -> fora
   snd (hfb_filter lower sel F input) ++ held (fst (hfb_filter lower sel F input)) = held F ++ input.
 Proof. intros lower sel LO. exact (hfb_conservation_partial lower sel wf0 (tok_facts_wf0 lower LO)). Qed.
 
+(* ---- the content clause for the HTML stage, all bytes, all reachable states, all chunkings ---- *)
+Theorem C04_html_reach_init : forall h v, visitor_new h = Some v -> reach (hfb_new v).
+Proof. exact reach_visitor_new. Qed.
+
+Theorem C04_html_reach_step : forall lower sel, lower_ok lower -> forall F input, reach F ->
+  reach (fst (hfb_filter lower sel F input))
+  /\ v_kind (f_visitor (fst (hfb_filter lower sel F input))) = v_kind (f_visitor F)
+  /\ v_content (f_visitor (fst (hfb_filter lower sel F input))) = v_content (f_visitor F).
+Proof. exact reach_filter. Qed.
+
+Theorem C04_html_insert_only_call : forall lower sel, lower_ok lower -> forall F input,
+  reach F -> v_kind (f_visitor F) <> VReplace ->
+  ins_of (v_content (f_visitor F)) (held F ++ input)
+         (snd (hfb_filter lower sel F input) ++ held (fst (hfb_filter lower sel F input))).
+Proof. exact hfb_insert_only_call. Qed.
+
+Theorem C04_html_replace_call : forall lower sel, lower_ok lower -> forall F input,
+  reach F -> v_kind (f_visitor F) = VReplace ->
+  repl_of (v_content (f_visitor F)) (held F ++ input)
+          (snd (hfb_filter lower sel F input) ++ held (fst (hfb_filter lower sel F input))).
+Proof. exact hfb_replace_call. Qed.
+
+Theorem C04_html_end : forall F, hfb_end F = (F, held F).
+Proof. exact hfb_end_releases. Qed.
+
+Theorem C04_html_insert_only : forall lower sel, lower_ok lower -> forall h chunks, insert_only_html h ->
+  ins_of (hf_value h) (concat chunks) (body_run lower sel true [BFHtml h] chunks).
+Proof. exact body_run_html_insert_only. Qed.
+
+Theorem C04_html_replace : forall lower sel, lower_ok lower -> forall h chunks,
+  hf_tree h <> [] -> hf_kind h = HReplace ->
+  repl_of (hf_value h) (concat chunks) (body_run lower sel true [BFHtml h] chunks).
+Proof. exact body_run_html_replace. Qed.
+
+(* whole filter lists (text and HTML filters in any order), FilterBodyAction's chain discipline included: the output is
+   obtained from the body by one pass per filter, in list order; a pass of an insert-only filter only inserts its
+   value ([ins_of]), a pass of an HTML replace only replaces '<' ... '>' segments by its value ([repl_of]), a filter
+   that is not built (non-HTML content type, empty element_tree, unknown action) changes nothing; a text replace
+   filter replaces the body as a whole (no constraint).  Any bytes, any chunking, error paths included. *)
+Theorem C04_filter_list : forall lower sel, lower_ok lower -> forall ctok fs chunks,
+  passes ctok fs (concat chunks) (body_run lower sel ctok fs chunks).
+Proof. exact body_run_passes. Qed.
+
+Theorem C04_filter_rel_def : forall ctok f,
+  filter_rel ctok f =
+  match f with
+  | BFText TReplace _ => fun _ _ => True
+  | BFText _ c => ins_of c
+  | BFHtml h =>
+      if ctok && negb (is_nil (hf_tree h)) then
+        match hf_kind h with
+        | HAppendChild | HPrependChild => ins_of (hf_value h)
+        | HReplace => repl_of (hf_value h)
+        | HOther => eq
+        end
+      else eq
+  end.
+Proof. reflexivity. Qed.
+
+
+(* a replaced span need not be a balanced element: replace(div) := R on <div><div>x</div>y</div> gives Ry</div>:
+   what disappears is "<div><div>x</div>" (outer start tag .. INNER end tag) *)
+Theorem C04_replace_span_not_balanced :
+  body_run HtmlConserveEx.lw HtmlConserveEx.sel_no true [BFHtml (HtmlConserveEx.mkf HReplace [82]%N [HtmlConserveEx.s_div] None)] [HtmlConserveEx.doc5]
+  = [82;121;60;47;100;105;118;62]%N
+  /\ HtmlConserveEx.doc5 = [60;100;105;118;62;60;100;105;118;62;120;60;47;100;105;118;62]%N ++ [121;60;47;100;105;118;62]%N.
+Proof. exact HtmlConserveEx.replace_span_is_balanced_element_refuted. Qed.
+
 Print Assumptions C04_nothing_applies.
 Print Assumptions C04_error_passthrough.
 Print Assumptions C04_html_error_releases.
 Print Assumptions C04_html_in_error.
 Print Assumptions C04_text_insert_only.
 Print Assumptions C04_html_conservation_partial.
+Print Assumptions C04_filter_list.
+Print Assumptions C04_html_reach_init.
+Print Assumptions C04_html_reach_step.
+Print Assumptions C04_html_insert_only_call.
+Print Assumptions C04_html_replace_call.
+Print Assumptions C04_html_end.
+Print Assumptions C04_html_insert_only.
+Print Assumptions C04_html_replace.
+Print Assumptions C04_replace_span_not_balanced.
